@@ -37,7 +37,9 @@ type Solver struct {
 	dead    bool
 	level   int
 	pendingPop bool
+	scopes  [][]*Term
 	Lost    bool // set after a restart: all scopes were lost
+	LastError string
 }
 
 type SolverStats struct {
@@ -63,7 +65,7 @@ func (s *Solver) start() error {
 	case "z3-new":
 		cmd = exec.Command("z3-new", "-in", fmt.Sprintf("-t:%d", ms))
 	case "cvc5":
-		cmd = exec.Command("cvc5", "--incremental", "--lang=smt2", "--produce-models", "--global-declarations", fmt.Sprintf("--tlimit-per=%d", ms))
+		cmd = exec.Command("cvc5", "--incremental", "--lang=smt2", "--produce-models", fmt.Sprintf("--tlimit-per=%d", ms))
 	default:
 		return fmt.Errorf("unknown solver %q", s.Kind)
 	}
@@ -84,6 +86,7 @@ func (s *Solver) start() error {
 	s.lines = make(chan string, 64)
 	s.dead = false
 	s.level = 0
+	s.scopes = nil
 	go func(r *bufio.Reader, ch chan string) {
 		for {
 			l, err := r.ReadString('\n')
@@ -97,7 +100,7 @@ func (s *Solver) start() error {
 		}
 	}(s.out, s.lines)
 	if s.Kind != "cvc5" {
-		s.send("(set-option :global-declarations true)\n(set-option :produce-models true)\n")
+		s.send("(set-option :produce-models true)\n")
 	} else {
 		s.send("(set-logic ALL)\n")
 	}
@@ -163,7 +166,7 @@ func (s *Solver) define(t *Term, sb *strings.Builder) {
 		return
 	}
 	if t.Op == OVar {
-		s.defined[t] = true
+		s.markDefined(t)
 		fmt.Fprintf(sb, "(declare-const %s %s)\n", quoteName(t.Name), t.S)
 		return
 	}
@@ -174,7 +177,7 @@ func (s *Solver) define(t *Term, sb *strings.Builder) {
 		fmt.Fprintf(sb, "(define-fun n%d () %s ", t.ID, t.S)
 		t.print(sb, s.name, 0)
 		sb.WriteString(")\n")
-		s.defined[t] = true
+		s.markDefined(t)
 	}
 }
 
@@ -191,11 +194,25 @@ func (s *Solver) termText(t *Term, sb *strings.Builder) string {
 func (s *Solver) Push() {
 	s.send("(push 1)\n")
 	s.level++
+	s.scopes = append(s.scopes, nil)
 }
 func (s *Solver) Pop() {
 	if s.level > 0 {
 		s.send("(pop 1)\n")
 		s.level--
+		// declarations and definitions made inside the scope are gone
+		top := s.scopes[len(s.scopes)-1]
+		s.scopes = s.scopes[:len(s.scopes)-1]
+		for _, t := range top {
+			delete(s.defined, t)
+		}
+	}
+}
+
+func (s *Solver) markDefined(t *Term) {
+	s.defined[t] = true
+	if n := len(s.scopes); n > 0 {
+		s.scopes[n-1] = append(s.scopes[n-1], t)
 	}
 }
 func (s *Solver) Level() int { return s.level }
@@ -218,7 +235,7 @@ func (s *Solver) Check(extra ...*Term) Result {
 	t0 := time.Now()
 	defer func() { s.Stats.Time += time.Since(t0) }()
 	if len(extra) > 0 {
-		s.send("(push 1)\n")
+		s.Push()
 		for _, e := range extra {
 			s.Assert(e)
 		}
@@ -244,6 +261,9 @@ func (s *Solver) Check(extra ...*Term) Result {
 		case strings.HasPrefix(l, "(error"):
 			sawErr = true
 			s.Stats.Errors++
+			if s.LastError == "" {
+				s.LastError = l
+			}
 			continue
 		default:
 			continue
@@ -258,7 +278,7 @@ func (s *Solver) Check(extra ...*Term) Result {
 			// keep scope for model query; caller must call EndCheck
 			s.pendingPop = true
 		} else {
-			s.send("(pop 1)\n")
+			s.Pop()
 		}
 	}
 	switch res {
@@ -282,7 +302,7 @@ func (s *Solver) restartLost() {
 // EndCheck closes the temporary scope left open by a Sat answer of Check(extra...).
 func (s *Solver) EndCheck() {
 	if s.pendingPop {
-		s.send("(pop 1)\n")
+		s.Pop()
 		s.pendingPop = false
 	}
 }
